@@ -20,7 +20,8 @@ ASSUME = [
     "the grid has at least one column and one row (the framebuffer holds at least one glyph cell below the logo), pitch >= width * bytes per pixel, the logo fits inside the framebuffer",
     "colour masks are 1-8 bits wide, do not overlap and lie inside the pixel; only bits covered by a mask are constrained in a painted pixel (bit 15 of a 15-bpp pixel and the X byte of an XRGB pixel are don't-care bits)",
     "text console colours are palette indices 0-15 (the statement gives no meaning to larger indices in a 4-bit attribute field); Fill content of a text cell is the console's clear character in the requested colours",
-    "Scroll: the vacated lines and the pixel rows below the last whole text line are unconstrained (the caller repaints them); logo rows and row padding must keep their bytes",
+    "visible pixels that belong to no cell (the margin right of the last whole cell column and the pixel rows below the last whole text line) are unconstrained for every operation: the statement speaks about cells; they only have to stay inside the framebuffer and are not padding",
+    "Scroll: the vacated lines are unconstrained (the caller repaints them); logo rows and row padding must keep their bytes",
     "trusted Go: construction of the consoles through DriverInit/SetLogo/SetFont over host memory, the diff/guard projection and the event writer in harness/console (no expected results in them); a periodic full checkpoint cross-checks the diff projection against the monitor's reconstruction",
     "non-termination is decided by process CPU time of an isolated child (1.5 s per call), not wall clock",
 ]
